@@ -13,10 +13,6 @@ ALL = ['C%02d' % i for i in range(1, 21)]
 # property -> (category, level text, level note, technique, design ref)
 CLAIMS = {}
 NOT_APPLICABLE = {
-    'C05': 'Equivariance under rigid transforms, sibling permutation and component independence '
-           'are relational (two-run) properties of numeric outputs; no structural clause beyond '
-           'the frame rules claimed under C01/C02 is a genuine necessary condition that a static '
-           'rule can decide (scan.py regrouping is integer bookkeeping over model size).',
     'C12': 'Asymptotic O(dt) drift of conserved quantities under step refinement is a statement '
            'about numeric trajectories; its only structural anchor (velocity before position) is '
            'not a necessary condition and is claimed under C02 where it is one.',
